@@ -101,6 +101,8 @@ def s_simplify(draw, tier):
         inds = []
         for _ in range(r):
             cands = [l for l in pool if (hyper or count[l] < 2) and l not in inds]
+            if not cands:
+                break
             used = [l for l in cands if count[l] == 1]
             l = draw(st.sampled_from(used)) if used and draw(st.integers(0, 2)) > 0 else draw(st.sampled_from(cands))
             inds.append(l)
@@ -182,6 +184,9 @@ def run_simplify(case):
         elif name == "squeeze":
             res = tn.squeeze(exclude=out, inplace=inplace) if out else tn.squeeze(inplace=inplace)
         else:
+            # fuse_multibonds takes no output_inds: only sound when no requested output label is also a bond
+            if any(len(tn.ind_map.get(ix, ())) >= 2 for ix in out):
+                raise Reject("fuse_multibonds does not know about output labels that are also bonds")
             res = tn.fuse_multibonds(inplace=inplace)
         if not inplace:
             if fingerprint(tn) != before:
@@ -312,9 +317,15 @@ def run_gauge(case):
         present = t1 in tn.tag_map and t2 in tn.tag_map and len(tn.tag_map[t1]) == 1 and len(tn.tag_map[t2]) == 1
         shared = present and len(tn[t1].bonds(tn[t2])) >= 1
         absorb = ["right", "left", "both"][k % 3]
+        if (name.startswith("gauge_") or name.startswith("compress_all")) and not tn.inner_inds():
+            raise Reject("no bonds left to gauge (crash on a bond-less network is outside this property)")
         if name in ("canonize_bond", "compress_bond", "balance_bond", "fuse_squeeze", "canonize_between", "compress_between",
                     "insert_gauge") and not shared:
             raise Reject("pair no longer shares a bond")
+        if name in ("canonize_bond", "compress_bond", "canonize_between", "compress_between") and shared:
+            nb = len(tn[t1].bonds(tn[t2]))
+            if tn[t1].ndim == nb and tn[t2].ndim == nb:
+                raise Reject("both tensors carry only the shared bond (their product is a scalar)")
         if name == "canonize_bond":
             a, b = tn[t1], tn[t2]
             tc.tensor_canonize_bond(a, b, absorb=absorb)
@@ -380,6 +391,17 @@ def run_gauge(case):
         elif name == "gauge_all_bp":
             if not all_dangling:
                 raise Reject("BP gauging is exact only when every tensor has a dangling leg")
+            # ... and only when the 2-norm messages are full rank: every bond must be no larger than the product of the
+            # other dimensions of both tensors it joins (otherwise the gauge is a pseudo-inverse)
+            for tid, t in tn.tensor_map.items():
+                per_nbr = {}
+                for ix in t.inds:
+                    for other in tn.ind_map[ix]:
+                        if other != tid:
+                            per_nbr[other] = per_nbr.get(other, 1) * t.ind_size(ix)
+                for other, d in per_nbr.items():
+                    if d > t.size // d:
+                        raise Reject("rank-deficient BP message (bonds to one neighbour larger than the rest of the tensor)")
             tn = tn.gauge_all_belief_propagation(max_iterations=200, tol=1e-12, inplace=bool(k % 2)) if hasattr(tn, "gauge_all_belief_propagation") else tn
             tol = max(tol, 1e-5)
         elif name == "gauge_local":
